@@ -26,7 +26,7 @@ def describe(tier):
     return {
         "rule": "G: all (n,k) with n in 0..40, k in 1..8, both directions, IPv4/IPv6; S: all sequences of (direction, n, k) records "
                 f"to depth 2 over n in {NS} x k in {KS}" + ("" if tier == "quick" else f" and to depth 3 over n in {NS3} x k in {KS3}") + "; P: product of option sets (-m absent/bare/"
-                "pairs, -a, -c, -p, -g) x 14 capture kinds (incl. reordered and retransmitted TLS segments, client ports that are configured server ports, equal client and server port numbers in a capture stamped from 0). non-trivial: an output holding >= 1 TCP conversation or UDP datagram that "
+                "pairs, -a, -c, -p, -g) x 15 capture kinds (incl. reordered and retransmitted TLS segments, client ports that are configured server ports, equal client and server port numbers in a capture stamped from 0). non-trivial: an output holding >= 1 TCP conversation or UDP datagram that "
                 "passed every structural test; distinct = distinct scenario",
         "exhaustive": True,
         "bounds": {"grid": "n 0..40 x k 1..8", "sequence_depth": "2 (full alphabet)" if tier == "quick" else "2 (full alphabet), 3 (reduced alphabet)"},
@@ -129,7 +129,7 @@ def check_builder(specs, v6):
 
 
 P_CAPTURES = ["tls_ok", "quic_ok", "tls_nokeys", "quic_nokeys", "quic_unknown_version", "http_on_443", "junk_udp", "empty", "mixed",
-              "tls_reordered", "tls_retransmitted", "tls_many_segments_two_flows", "client_port_is_server_port", "equal_ports_epoch_zero"]
+              "tls_reordered", "tls_retransmitted", "tls_many_segments_two_flows", "client_port_is_server_port", "equal_ports_epoch_zero", "silent_first_and_last"]
 P_OPTS = {"m": [None, [], ["443:8081"], ["443:8081", "8443:9000"]], "a": [False, True], "c": [False, True], "p": [None, ["8443"]],
           "g": [False, True]}
 
@@ -175,6 +175,15 @@ def program_capture(kind, seed):
         pk_ = add_quic(1)
         ends[1].client.port = 44330
         lists.append(pk_)
+    if kind == "silent_first_and_last":
+        # sessions that export nothing (no keys / not TLS at all) open and close the capture, decryptable ones lie in between
+        lists.append(add_tls(2, keys=False, version=tls.TLS13, suite=0x1301))
+        lists.append(add_tls(0))
+        lists.append(add_tls(9, version=tls.TLS10, suite=0x002F))
+        e = cap.Ends(5)
+        ends[5] = e
+        lists.append(cap.tcp_packets(5, [("c", b"GET / HTTP/1.1\r\n\r\n"), ("s", b"HTTP/1.1 200 OK\r\n\r\nhi")]))
+        lists.append(add_tls(10, keys=False))
     if kind == "equal_ports_epoch_zero":
         # client and server use the SAME port number (443 <-> 443, 44330 <-> 44330: still unique 4-tuples), and the capture's
         # timestamps are relative to its first packet (the first packet is stamped 0)
